@@ -646,6 +646,31 @@ def scenarios(rng, ctx0=5000):
         s.inplace_next = True; s.bin('add', ('ref', y2), ('num', 1.5)); r1 = len(s.slots) - 1; s.read('x', y2); s.read('x', r1)
         s.inplace_next = True; s.bin('mul', ('ref', y2), ('ref', 3)); r2 = len(s.slots) - 1; s.read('x', y2); s.read('u', y2); s.read('u', r2)
         done(s)
+    # S16: weighted merges (mul, div, sub, pow, atan2) of operands whose influence sets have the SAME size (4..6) and the same
+    # first, middle and last input but differ in between (and, as controls, differ only at an end / in size): any shortcut of the
+    # merge walk that compares lengths or a few positions instead of the whole index shows up in the component vectors
+    for variant in range(3):
+        s = new()
+        kinds = [(False, True, None)[variant] if variant < 2 else (rng.random() < 0.5) for _ in range(8)]
+        for dep in kinds: s.ureal(_rv(rng), _rv(rng, .1, 1), inf, indep=not dep)
+        def wsum(sub):
+            acc = None
+            for i in sub:
+                s.bin('mul', ('num', _rv(rng)), ('ref', i)); t = len(s.slots) - 1
+                if acc is None: acc = t
+                else:
+                    s.bin('add', ('ref', acc), ('ref', t)); acc = len(s.slots) - 1
+            return acc
+        pairs = [([0, 1, 3, 4], [0, 2, 3, 4]), ([0, 1, 3, 4, 6], [0, 2, 3, 4, 6]), ([0, 1, 3, 4, 6], [0, 1, 3, 5, 6]),
+                 ([0, 1, 2, 4, 5, 7], [0, 1, 3, 4, 6, 7]), ([1, 2, 4, 6], [1, 3, 4, 6]), ([0, 1, 3, 4], [0, 1, 3, 5]), ([0, 2, 3], [0, 1, 3, 4])]
+        ops = ['mul', 'div', 'sub', 'mul', 'div', 'sub', 'pow' if variant == 0 else 'mul']
+        for (A, B), op in zip(pairs, ops):
+            a = wsum(A); b = wsum(B)
+            s.bin(op, ('ref', a), ('ref', b)); y1 = len(s.slots) - 1
+            s.bin(rng.choice(['mul', 'div', 'sub']), ('ref', b), ('ref', a)); y2 = len(s.slots) - 1
+            s.read('u', y1); s.read('u', y2)
+            for i in sorted(set(A) | set(B)): s.ucomp(y1, i)
+        done(s)
     # S13: reporting calls (budget / components, with and without intermediates) between operations: they must not change
     # any number -- the operands are used again afterwards (merges with numbers having other influences) and re-budgeted
     for variant in range(2):
